@@ -159,7 +159,9 @@ var ForgedKinds = []string{"otherkey", "forgedsig", "sigflip", "payload", "revea
 	// own key's reveal value where the signed data carries one)
 	"revealmismatch+signedreveal",
 	// a copy of a correctly signed operation with bytes appended to its signature
-	"sigextend"}
+	"sigextend",
+	// the committed key's reveal value in the request, another key inside the signed data, and no delta at all
+	"revealmismatch+nodelta"}
 
 // Forge makes an unauthorised variant of the given type against the current keys.
 func (d *DID) Forge(ty operation.Type, kind string, n int) Spec {
@@ -203,6 +205,11 @@ func (d *DID) Forge(ty operation.Type, kind string, n int) Spec {
 		s.Tamper = TPayload
 	case "revealmismatch+signedreveal":
 		s.SignedKey, s.SignWith, s.SignedReveal = stranger, stranger, stranger
+		if s.NextRec == stranger.Commitment(d.Code) {
+			s.NextRec = attackerNext.Commitment(d.Code)
+		}
+	case "revealmismatch+nodelta":
+		s.SignedKey, s.SignWith, s.Tamper = stranger, stranger, TNoDelta
 		if s.NextRec == stranger.Commitment(d.Code) {
 			s.NextRec = attackerNext.Commitment(d.Code)
 		}
